@@ -17,7 +17,7 @@ import (
 // the calls of ImportSnapshot the model's import_prog is made of
 var c20Steps = []string{
 	"checkImportSettings", "getSnapshotFilepath", "getSnapshotRecord",
-	"isCompleteSnapshotImage", "checkMembers", "NewEnv", "CreateNodeHostDir",
+	"isCompleteSnapshotImage", "hasAllExternalFiles", "checkMembers", "NewEnv", "CreateNodeHostDir",
 	"getLogDB", "CheckNodeHostDir", "cleanupSnapshotDir", "CreateSnapshotDir",
 	"CreateTempDir", "getProcessedSnapshotRecord", "copySnapshot",
 	"FinalizeSnapshot", "ImportSnapshot",
@@ -150,7 +150,7 @@ func c20Analyse() *c20Info {
 				}
 				// `ok, err := isCompleteSnapshotImage(...)` additionally needs `if !ok { return ErrX }`
 				for _, nm := range names {
-					if nm == "isCompleteSnapshotImage" {
+					if nm == "isCompleteSnapshotImage" || nm == "hasAllExternalFiles" {
 						g2 := false
 						if i+2 < len(list) {
 							if nx, ok := list[i+2].(*ast.IfStmt); ok && nx.Init == nil {
